@@ -45,6 +45,9 @@ type spec struct {
 	// LateRotation: the wallet is loaded while the last-but-one keyset is active; the mint rotates to the last
 	// keyset afterwards, so the send itself is what discovers the rotation (the last keyset holds nothing)
 	LateRotation bool
+	// RestartFee >= 0: after the sending wallet was loaded the mint is restarted (no rotation) with this input fee in
+	// its configuration - which only concerns keysets created from then on
+	RestartFee int
 }
 
 func propSend(t *rapid.T) {
@@ -55,6 +58,10 @@ func propSend(t *rapid.T) {
 	}
 	sp.CaseSeed = rapid.Uint64().Draw(t, "case_seed")
 	sp.LateRotation = nks >= 2 && rapid.IntRange(0, 3).Draw(t, "late_rotation") == 0
+	sp.RestartFee = -1
+	if rapid.IntRange(0, 4).Draw(t, "mint_restart") == 0 {
+		sp.RestartFee = int(rapid.SampledFrom(feeChoices).Draw(t, "restart_fee"))
+	}
 	total := 0
 	var balance, inactive uint64
 	for k := 0; k < nks; k++ {
@@ -152,6 +159,13 @@ func sendCase(t world.T, sp spec) {
 	}
 	if err := sender.Inner().SaveProofs(contents); err != nil {
 		t.Fatalf("SaveProofs: %v", err)
+	}
+	if sp.RestartFee >= 0 {
+		if err := mw.Restart(false, uint(sp.RestartFee)); err != nil {
+			t.Fatalf("mint restart: %v", err)
+		}
+		mw.RefreshKeysets()
+		rec.Class("send_after_mint_restart_with_other_configured_fee")
 	}
 	balance := contents.Amount()
 	if got := sender.W.GetBalanceByMints()[mintURL]; got != balance {
